@@ -191,10 +191,15 @@ func c16Record(c *ctx, in c16Input, d *Driver, impl *[]string) {
 			}
 			r.fail(sig, fmt.Sprintf("IsValid(%d)=%s, specification %v", in.SeqLen, validS, wantValid), in)
 		}
-		// bin: reg2bin(pos, end), unmapped reads as length one; reads whose CIGAR consumes no reference are
-		// not judged (the specification does not say which length they have)
-		if in.Pos >= 0 && specEnd > in.Pos && specEnd <= 1<<29 {
-			want := c16SpecReg2bin(int64(in.Pos), int64(specEnd), 14, 5)
+		// bin (SAM v1 §4.2.1): reg2bin(pos, end) with an alignment length of 0 wrapped to 1; unmapped reads
+		// as length one, so that an unplaced read (pos -1) has reg2bin(-1, 0) = 4680
+		binEnd := specEnd
+		if binEnd == in.Pos {
+			binEnd++
+		}
+		placedOK := in.Pos >= 0 || (in.Pos == -1 && (in.Unmapped || len(ops) == 0))
+		if placedOK && binEnd > in.Pos && binEnd <= 1<<29 {
+			want := c16SpecReg2bin(int64(in.Pos), int64(binEnd), 14, 5)
 			if binS != fmt.Sprint(want) {
 				cls := "mapped"
 				if in.Unmapped && in.MateUnm {
@@ -202,9 +207,15 @@ func c16Record(c *ctx, in c16Input, d *Driver, impl *[]string) {
 				} else if in.Unmapped {
 					cls = "unmapped"
 				}
-				r.fail("c16.bin."+cls, fmt.Sprintf("Bin()=%s, specification reg2bin(%d,%d)=%d", binS, in.Pos, specEnd, want), in)
+				r.fail("c16.bin."+cls, fmt.Sprintf("Bin()=%s, specification reg2bin(%d,%d)=%d", binS, in.Pos, binEnd, want), in)
 			}
 			r.hist("record.bin.judged")
+			if specEnd == in.Pos {
+				r.hist("record.bin.judged.zero-reference-length")
+			}
+			if in.Pos == -1 {
+				r.hist("record.bin.judged.unplaced")
+			}
 		} else {
 			r.hist("record.bin.notjudged")
 		}
@@ -361,7 +372,7 @@ func c16Pos(rnd *Rand, limit int64) int64 {
 
 func checkC16(c *ctx) {
 	r := c.res
-	r.Rule = "records: CIGARs of 0..8 ops over the nine standard ops and B with lengths from {0,1,2,small,2^14±1,2^28-1} at edge-biased positions (tile and bin-level edges ±2, ends of the 2^29 range), mapped/unmapped/mate-unmapped; a separate stream with op types 10..15 (compared with the model only). " +
+	r.Rule = "records: CIGARs of 0..8 ops over the nine standard ops and B with lengths from {0,1,2,small,2^14±1,2^28-1} at edge-biased positions (tile and bin-level edges ±2, ends of the 2^29 range), mapped/unmapped/mate-unmapped, including CIGARs that consume no reference placed exactly on tile and bin-level boundaries and unplaced reads (pos -1); a separate stream with op types 10..15 (compared with the model only). " +
 		"BAI: edge-biased overlapping interval pairs; CSI: every overlapping interval pair of small geometries (exhaustive) and edge-biased pairs of large ones. Non-trivial: CIGAR non-empty / intervals longer than 1; distinct = distinct case text."
 	if c.replay != "" {
 		var in c16Input
@@ -410,7 +421,19 @@ func checkC16(c *ctx) {
 				ops[0].t, ops[1].t = 5, 4
 			}
 		}
+		// a CIGAR that consumes no reference (insertions, clips, padding only): End() = Pos
+		zeroRef := n > 0 && rnd.coin(1, 10)
+		if zeroRef {
+			for j := range ops {
+				ops[j].t = rnd.pick([]int{1, 1, 4, 5, 6})
+			}
+		}
 		in := c16Input{Kind: "record", Pos: int(c16Pos(rnd, 1<<29)), Cigar: c16CigarText(ops)}
+		if zeroRef && rnd.coin(1, 2) {
+			// exactly on a tile / bin-level boundary, where reg2bin(pos, pos) and reg2bin(pos, pos+1) differ
+			sh := uint(rnd.pick([]int{14, 14, 17, 20, 23, 26}))
+			in.Pos = int(int64(rnd.intn(1<<(29-int(sh)))) << sh)
+		}
 		if rnd.coin(1, 40) {
 			in.Pos = -1
 		}
